@@ -379,6 +379,18 @@ def run(P, R, tier):
     c12.digit_thresholds(P, Remap(R, {'C12.TAB.1': 'C09.TAB.2'}), pf, pout, pposv)
     from . import c13
     c13.hex_table(P, R, 'C09.TAB.3')
+    # the text never begins with ':' (it would swallow the rest of the line as one parameter)
+    head_, lv_, N_, body_ = c12.path_weight(P, Remap(R, {}), pf, pout, pposv)
+    c12.first_char(P, Remap(R, {'C12.GRD.1': 'C09.GRD.3'}), pf, pout, pposv, lv_)
+    # every announcement makes a fresh request: the address and port echoed are those of this announcement
+    from . import c04, c05
+    c04.serial_writers(P, Remap(R, {'C04.WMC.2': 'C09.WMC.4'}))
+    # nothing is formatted from a request that has been released
+    from .. import uar
+    uar.check(P, R, 'C09.UAR.1')
+    # an account stamp is one word: the copy stops at the first space
+    w5 = c05.account_writers(P, Remap(R, {}))
+    c05.account_copy(P, Remap(R, {'C05.BND.1': 'C09.BND.1'}), w5)
     # the fully written form (six groups and a dotted quad) of an announced address is stored, not cut short
     c13.full_range(P, R, c13.scope(P), 'C09.TAB.4', parts=('copy',))
     R.floor('C09.TAB.4', 1)
